@@ -4,7 +4,8 @@ import json, os, subprocess, time
 import enumcheck, vp, build
 import C02
 
-LEGS = [{"name": "C10", "variant": "serial-asan", "sources": ["harness/C10_progressive.c"]}]
+LEGS = [{"name": "C10", "variant": "serial-asan", "sources": ["harness/C10_progressive.c"]},
+        {"name": "C10t", "variant": "gomp", "sources": ["harness/C10_progressive.c"], "cflags": ["-DC10_THREADS=4"], "ld": ["-lpthread"]}]
 RULE = ("enumeration leg: every tuple of 3..5(6) sequences over 2-3 letter alphabets up to a length bound x 3 gap-penalty presets (default, zero, "
         "small: zero/small penalties give gap-rich groups), plus k-means trees (104/130/230 sequences) and the 99..513-sequence large shapes; at "
         "every MERGE_END the member gap vectors are copied and, after the run, compared with the projection of the final alignment onto the node; "
